@@ -62,7 +62,10 @@ fn run_once(sc: &Scenario, plan: Option<FaultPlan>, reference: Option<&Vec<Snap>
         let ops = sc.threads.first().cloned().unwrap_or_default();
         let mut snaps: Vec<Snap> = vec![];
         for (i, op) in ops.iter().enumerate() {
-            let failed0 = st.term.lock().failed_calls;
+            // (only the calls made by this thread count for the result of its call: a steady
+            // ticker may hit the fault in the middle of it)
+            let me = verif_simrt::sched::tid().unwrap_or(usize::MAX);
+            let failed0 = st.term.lock().failed_by_tid.get(&me).copied().unwrap_or(0);
             st.last_io_err = None;
             let res = st.exec(op, &mut r);
             let at = format!("op#{} {}", i + 1, op.short());
@@ -73,7 +76,7 @@ fn run_once(sc: &Scenario, plan: Option<FaultPlan>, reference: Option<&Vec<Snap>
             if r.harness_error.is_some() {
                 break;
             }
-            let failed = st.term.lock().failed_calls - failed0;
+            let failed = st.term.lock().failed_by_tid.get(&me).copied().unwrap_or(0) - failed0;
             if let Some(is_err) = st.last_io_err {
                 if is_err != (failed > 0) {
                     r.violate(
@@ -163,7 +166,7 @@ impl Check for C18 {
         "fault_enumeration"
     }
     fn rule_text(&self) -> String {
-        "Histories (3..15 quick / 3..30 thorough calls; standalone bars and MultiProgress with siblings; tick/inc/set_message/set_prefix/set_length/set_style/set_tab_width/println/suspend/reset/finish*/force_draw/iterator completion, add/insert*/remove/drop, mp.println/clear/suspend, optional steady ticker + simulated sleeps) are sampled from the seed. For each history the fault-free run counts the terminal calls N; then every index k in 0..N is failed in three modes (only call k fails / call k and all later calls fail / call k fails and each later call fails with probability 1/2, a fixed function of the indices) with rotating io::ErrorKind (Other, BrokenPipe, Interrupted, WouldBlock, WriteZero): exhaustive over (k, mode) per history. Oracle: no call panics on any simulated thread; getters (position, length, message, prefix, is_finished) after every call equal the fault-free run; mp.println/mp.clear return Err iff a terminal call failed during them; afterwards every bar, sibling and the MultiProgress are exercised and dropped without panic (a poisoned lock shows there). Non-trivial: history with N >= 3 terminal calls. Distinct = distinct scenario hash; 'executions_including_sub_runs' counts the enumerated fault runs.".into()
+        "Histories (3..15 quick / 3..30 thorough calls; standalone bars and MultiProgress with siblings; tick/inc/set_message/set_prefix/set_length/set_style/set_tab_width/println/suspend/reset/finish*/force_draw/iterator completion, add/insert*/remove/drop, mp.println/clear/suspend, optional steady ticker + simulated sleeps) are sampled from the seed. For each history the fault-free run counts the terminal calls N; then every index k in 0..N is failed in three modes (only call k fails / call k and all later calls fail / call k fails and each later call fails with probability 1/2, a fixed function of the indices) with rotating io::ErrorKind (Other, BrokenPipe, Interrupted, WouldBlock, WriteZero): exhaustive over (k, mode) per history for k < 250, every 41st index beyond that (one history in twelve ends with 240..300 forced redraws: the program carries on for long after the terminal went away). Oracle: no call panics on any simulated thread; getters (position, length, message, prefix, is_finished) after every call equal the fault-free run; mp.println/mp.clear return Err iff a terminal call failed during them; afterwards every bar, sibling and the MultiProgress are exercised and dropped without panic (a poisoned lock shows there). Non-trivial: history with N >= 3 terminal calls. Distinct = distinct scenario hash; 'executions_including_sub_runs' counts the enumerated fault runs.".into()
     }
     fn assumptions(&self) -> Vec<String> {
         vec![
@@ -211,7 +214,18 @@ impl Check for C18 {
         let fl = if rng.chance(1, 3) { Flavor::C01 } else { Flavor::C02 };
         // reuse the terminal checks' generator at a smaller size
         let mut sc = TermCheck(fl).gen(rng, Tier::Quick, index);
+        while sc.mode == "sched" {
+            // (the scheduled modes of the terminal checks have their own executors)
+            sc = TermCheck(fl).gen(rng, Tier::Quick, index);
+        }
         sc.prop = "C18".into();
+        let long_tail = rng.chance(1, 12);
+        if long_tail {
+            if sc.c("hz") == 0 && rng.chance(1, 2) {
+                sc.set("hz", 20);
+            }
+            sc.mode = format!("{}+long", sc.mode);
+        }
         sc.set("xcheck", 0);
         sc.set("h", 30);
         let max = if tier == Tier::Quick { 15 } else { 30 };
@@ -232,6 +246,11 @@ impl Check for C18 {
                 _ => Op::new("suspend").n(b).n(0).s("Ux"),
             };
             ops.insert(at.min(ops.len()), op);
+        }
+        if long_tail {
+            // the program carries on for long after the fault: a long run of forced redraws at
+            // the end of the history (on a rate-limited target in half of these)
+            ops.push(Op::new("burn_forced").n(rng.below(2)).n(rng.range(240, 300)));
         }
         if rng.chance(1, 4) {
             // a steady ticker and some simulated sleeping, so that faults also hit the ticker thread
@@ -258,10 +277,12 @@ impl Check for C18 {
         let n = base.n_calls;
         total.nontrivial = n >= 3;
         total.probe_n("terminal_calls_in_fault_free_runs", n);
+        // every index below 250; beyond that (histories with a long tail of forced redraws) every
+        // 41st index, so that the enumeration stays affordable
         let plans: Vec<(u64, u64)> = if pinned {
             vec![(sc.c("fault_k"), sc.c("fault_mode"))]
         } else {
-            (0..n).flat_map(|k| [(k, 0u64), (k, 1u64), (k, 2u64)]).collect()
+            (0..n).filter(|k| *k < 250 || k % 41 == 0).flat_map(|k| [(k, 0u64), (k, 1u64), (k, 2u64)]).collect()
         };
         for (k, mode) in plans {
             let plan = FaultPlan {
